@@ -1,6 +1,7 @@
 package main
 
 import (
+	"sync"
 	"fmt"
 	"os"
 	"os/exec"
@@ -72,6 +73,47 @@ func rolesOf(p *Program) map[string][]string {
 		default:
 			walk([]Stmt{x}, false)
 		}
+	}
+	// identifiers of imported files (their public functions are called through the alias and keep their names)
+	for _, f := range p.Files[1:] {
+		var lw func(b []Stmt, inFunc bool)
+		lw = func(b []Stmt, inFunc bool) {
+			for _, s := range b {
+				switch x := s.(type) {
+				case VarDecl:
+					for _, n := range x.Names {
+						if inFunc {
+							add("lib-local", n)
+						} else {
+							add("lib-global", n)
+						}
+					}
+				case FuncDecl:
+					if x.Name[0] >= 'a' && x.Name[0] <= 'z' {
+						add("lib-func", x.Name)
+					}
+					for _, pa := range x.Params {
+						add("lib-local", pa.Name)
+					}
+					lw(x.Body, true)
+				case If:
+					for _, br := range x.Branches {
+						lw(br.Body, true)
+					}
+					lw(x.Else, true)
+				case For:
+					if d, ok := x.Init.(VarDecl); ok {
+						for _, n := range d.Names {
+							add("lib-local", n)
+						}
+					}
+					add("lib-local", x.RangeIdx)
+					add("lib-local", x.RangeVal)
+					lw(x.Body, true)
+				}
+			}
+		}
+		lw(f.Stmts, false)
 	}
 	return roles
 }
@@ -148,8 +190,30 @@ func c10Programs(c *Check) []*Program {
 		def("limit", il(10)),
 		For{Kind: ForRange, RangeIdx: "pos", RangeVal: "name", Over: vr("names"), Body: []Stmt{IncDec{"limit", false}, pr(vr("pos"), vr("name"))}},
 		pr(sl("left"), vr("limit"), vr("hits")),
+		// top-level block variables that share their names with locals of the function called inside the block
+		// (report is the last function of the file)
+		For{Kind: ForRange, RangeIdx: "pos", RangeVal: "ch", Over: sl("ab"), Body: []Stmt{def("more", bin("+", vr("pos"), il(50))), pr(call("report", bin("+", vr("ch"), sl("zb"))), vr("pos"), vr("ch"), vr("more"))}},
+		ifs(cmp(">", vr("limit"), il(0)), def("more", il(7)), def("ch", sl("q")), pr(call("report", sl("bb")), vr("more"), vr("ch"))),
 	})
-	progs := []*Program{p1, p2, p3}
+	// p4: two files; the imported file has globals, a private and public functions with ordinary names
+	p4 := &Program{Files: []*File{
+		{Name: "main.tsh", Imports: []Import{{Alias: "m", Path: "lib.tsh"}}, Stmts: []Stmt{
+			def("width", il(3)),
+			fn("decorate", []Param{{"txt", TString}}, []Type{TString}, def("out", bin("+", vr("txt"), sl("."))), ret(vr("out"))),
+			pr(Call{Alias: "m", Fn: "Fmt", Args: []Expr{sl("x")}}, Call{Alias: "m", Fn: "Level"}, call("decorate", sl("y")), vr("width")),
+			pr(Call{Alias: "m", Fn: "Fmt", Args: []Expr{call("decorate", sl("z"))}}, Call{Alias: "m", Fn: "Bump"}, Call{Alias: "m", Fn: "Level"}),
+		}},
+		{Name: "lib.tsh", Stmts: []Stmt{
+			def("indent", sl("--")),
+			def("depth", il(2)),
+			def("calls", il(0)),
+			fn("pad", []Param{{"count", TInt}}, []Type{TString}, def("out", sl("")), For{Kind: ForThree, Init: def("step", il(0)), Cond: cmp("<", vr("step"), vr("count")), Post: IncDec{"step", true}, Body: []Stmt{OpAssign{"out", "+", vr("indent")}}}, ret(vr("out"))),
+			fn("Fmt", []Param{{"txt", TString}}, []Type{TString}, IncDec{"calls", true}, def("lead", call("pad", vr("depth"))), ret(bin("+", vr("lead"), vr("txt")))),
+			fn("Level", nil, []Type{TInt}, ret(bin("+", bin("*", vr("depth"), il(10)), vr("calls")))),
+			fn("Bump", nil, []Type{TInt}, IncDec{"depth", true}, ret(vr("depth"))),
+		}},
+	}}
+	progs := []*Program{p1, p2, p3, p4}
 	n := c.Pick(2, 30)
 	for i := 0; i < n; i++ {
 		cfg := genConfigs[[]string{"c02", "c03"}[i%2]]
@@ -181,6 +245,8 @@ func nameClass(n string, origin string) string {
 		return "register"
 	case regexp.MustCompile(`^f\d+_`).MatchString(n):
 		return "mangled-local"
+	case regexp.MustCompile(`^i[0-9a-f]{7}_`).MatchString(n):
+		return "import-prefixed"
 	case regexp.MustCompile(`^_(sah|sch|ssh|sls|slg|stsh|stlh|ech|ach|frh|fwh|seh)$`).MatchString(n) || strings.HasPrefix(n, "_eo_") || strings.HasPrefix(n, "_ret_"):
 		return "helper-routine"
 	case strings.HasPrefix(n, "_"):
@@ -190,7 +256,7 @@ func nameClass(n string, origin string) string {
 }
 
 func checkC10(c *Check) {
-	c.Rule = "metamorphic + reference: programs that print values only (never names) are renamed one identifier at a time, per role (global, local, parameter, function, loop/range variable), into target names (a) harvested at check time from the emitted Bash and Batch scripts of the same programs (temporaries, registers, mangled locals, helper routines and their scratch variables, keywords of the shells), (b) the running bash's own builtins, keywords and variables (compgen -bkv) and a fixed list of cmd.exe variables, (c) case variants of the program's own names, (d) fresh random identifiers as control group; the renamed program must be rejected or behave exactly like the original (real bash run; Batch under the cmd model, inconclusive where unmodelled). Non-trivial = renamed program accepted and executed; distinct = (program, role, target name)"
+	c.Rule = "metamorphic + reference: programs that print values only (never names) are renamed one identifier at a time, per role (global, local, parameter, function, loop/range variable), into target names (a) harvested at check time from the emitted Bash and Batch scripts of the same programs (temporaries, registers, mangled locals, helper routines and their scratch variables, keywords of the shells), (b) the running bash's own builtins, keywords and variables (compgen -bkv) and a fixed list of cmd.exe variables, (c) case variants of the program's own names, (d) fresh random identifiers as control group, (e) the program's own other identifiers (another scope, file or kind) wherever the reference semantics say the renaming preserves the meaning; one of the programs consists of two files; the renamed program must be rejected or behave exactly like the original (real bash run; Batch under the cmd model, inconclusive where unmodelled). Non-trivial = renamed program accepted and executed; distinct = (program, role, target name)"
 	c.Assumptions = []string{"programs never print identifier names, so the reference output is invariant under renaming", "Batch behaviour is relative to the cmd model (dynamic pseudo-variables such as RANDOM or ERRORLEVEL are not modelled)"}
 	progs := c10Programs(c)
 	type base struct {
@@ -222,6 +288,17 @@ func checkC10(c *Check) {
 			continue
 		}
 		b.bash, b.batch = ta.Script, tb.Script
+		// a base program must itself behave like the reference before its renamings mean anything
+		{
+			run := newSandbox()
+			rr := RunBash(run, ta.Script, RunOpts{Timeout: 10 * time.Second})
+			os.RemoveAll(run)
+			if rr.TimedOut || rr.Stdout != ref.Stdout || rr.Exit != ref.Exit || rr.Stderr != "" {
+				c.Eval("base\x00"+RenderFile(p.Files[0]), true)
+				c.Violation(fmt.Sprintf("base-program/%d", len(bases)), "a program of the workload does not behave like the reference before any renaming: "+firstDiff(ref.Stdout, rr.Stdout)+" stderr "+oneLine(clip(rr.Stderr, 200)), map[string]string{"main.tsh": RenderFile(p.Files[0]), "script.sh": ta.Script, "expected.stdout": ref.Stdout})
+				continue
+			}
+		}
 		for _, w := range identRe.FindAllString(ta.Script, -1) {
 			if !b.own[w] {
 				harvest[w] = "bash-script-word"
@@ -265,7 +342,7 @@ func checkC10(c *Check) {
 	for _, n := range hk {
 		origin := harvest[n]
 		cl := nameClass(n, origin)
-		if cl == "temporary" || cl == "register" || cl == "mangled-local" || cl == "underscore-internal" || cl == "helper-routine" {
+		if cl == "temporary" || cl == "register" || cl == "mangled-local" || cl == "import-prefixed" || cl == "underscore-internal" || cl == "helper-routine" {
 			perClass[cl]++
 			if !c.Thorough() && perClass[cl] > 4 {
 				continue
@@ -295,7 +372,7 @@ func checkC10(c *Check) {
 	}
 	jobs := []job{}
 	for bi, b := range bases {
-		for _, role := range []string{"global", "local", "param", "func", "loopvar"} {
+		for _, role := range []string{"global", "local", "param", "func", "loopvar", "lib-global", "lib-local", "lib-func"} {
 			cands := b.roles[role]
 			if len(cands) == 0 {
 				continue
@@ -309,6 +386,9 @@ func checkC10(c *Check) {
 				}
 				from := cands[(ni+bi)%len(cands)]
 				cl := nameClass(to, harvest[to])
+				if !c.Thorough() && (cl == "bash-own-name" || cl == "mangled-local") && (ni+int(c.Seed))%4 != 0 {
+					continue // quick tier: a quarter of the two largest classes (both are recorded findings)
+				}
 				if harvest[to] == "near-miss" {
 					cl = "near-miss"
 				}
@@ -321,7 +401,10 @@ func checkC10(c *Check) {
 					}
 				}
 				if derived || cl == "near-miss" {
-					for _, f2 := range cands {
+					for k2, f2 := range cands {
+						if !c.Thorough() && cl == "near-miss" && !derived && k2 >= 3 {
+							break // quick tier: a near-miss name visits three identifiers of the role
+						}
 						if f2 != from {
 							classCount[cl+"(all-candidates)"]++
 							jobs = append(jobs, job{bi, role, f2, to, cl})
@@ -335,6 +418,22 @@ func checkC10(c *Check) {
 				}
 				classCount[cl]++
 				jobs = append(jobs, job{bi, role, from, to, cl})
+			}
+			// the program's own names as targets: an identifier takes the spelling of another identifier of the
+			// program (other scope, other file, other kind). Kept only if the reference semantics say the renamed
+			// program is still well defined and prints the same (decided in the job), and the parser accepts it.
+			ownNames := []string{}
+			for o := range b.own {
+				ownNames = append(ownNames, o)
+			}
+			sort.Strings(ownNames)
+			for _, from := range cands {
+				for _, to := range ownNames {
+					if to != from {
+						classCount["own-name"]++
+						jobs = append(jobs, job{bi, role, from, to, "own-name"})
+					}
+				}
 			}
 			// case variants of the program's own names
 			for _, from := range cands {
@@ -378,14 +477,41 @@ func checkC10(c *Check) {
 		jobs = uniq
 	}
 	c.Extra["renamings_per_class"] = classCount
+	spent := map[string]time.Duration{}
+	defer func() {
+		m := map[string]string{}
+		for k, v := range spent {
+			m[k] = v.Round(time.Second).String()
+		}
+		c.Extra["cpu_time_per_program"] = m
+	}()
+	var spentMu sync.Mutex
 	parallelDo(len(jobs), 16, func(i int) {
 		j := jobs[i]
 		b := bases[j.bi]
+		t0 := time.Now()
+		defer func() {
+			spentMu.Lock()
+			spent[fmt.Sprintf("program%d", j.bi)] += time.Since(t0)
+			spentMu.Unlock()
+		}()
 		rp := renameProgram(b.p, j.from, j.to)
+		if j.class == "own-name" {
+			r2 := Interpret(rp, 32, interpBudget)
+			if r2.Undefined != "" || r2.Stdout != b.ref.Stdout || r2.Exit != b.ref.Exit {
+				c.Count("own_name_renamings_not_meaning_preserving_skipped", 1)
+				return
+			}
+		}
 		dir := newSandbox()
 		defer os.RemoveAll(dir)
 		mainPath, srcs := WriteProgram(dir, rp)
 		files := map[string]string{"renamed.tsh": srcs["main.tsh"], "original.tsh": RenderFile(b.p.Files[0]), "expected.stdout": b.ref.Stdout}
+		for n, src := range srcs {
+			if n != "main.tsh" {
+				files["renamed-"+n] = src
+			}
+		}
 		summary := fmt.Sprintf("renaming %s %q -> %q", j.role, j.from, j.to)
 		// Bash
 		ta := TranspileFile(mainPath, Bash, 30*time.Second)
